@@ -583,6 +583,14 @@ pub fn c07(scn: &Scenario, tr: &[Ev]) -> Vec<Violation> {
                 Some((_, true)) => v(&mut out, "C07 graceful end", format!("actor {a}: on_stop(killed=true) without kill")),
                 None => v(&mut out, "C07 ends when stopped or unreferenced", format!("actor {a}: stopped={stopped} strong={strong} but on_stop never ran")),
             }
+            if let Some((_, true)) = ax.on_stop_called.iter().skip(1).find(|(_, k)| *k) {
+                v(&mut out, "C07 graceful end", format!("actor {a}: on_stop(killed=true) ran although nobody killed the actor"));
+            }
+            if let (Some(_), Some(j)) = (ax.on_stop_called.first(), ax.joined.as_ref()) {
+                if j.1.killed == Some(true) {
+                    v(&mut out, "C07 graceful end", format!("actor {a}: ended as killed although nobody killed it"));
+                }
+            }
             if ax.joined.is_none() && !(ax.on_stop_exit.is_none()) {
                 v(&mut out, "C07 join handle resolves", format!("actor {a}: on_stop finished but the JoinHandle did not resolve"));
             }
